@@ -61,7 +61,7 @@ T_SLICE_BOUNDS = [None, -8, -7, -5, -3, -2, -1, 0, 1, 2, 3, 5, 7, 8]
 T_SLICE_STEPS = [None, 1, 2, 3, 4, -1, -2, -3, -4]
 
 
-@functools.lru_cache(maxsize=None)
+@functools.lru_cache(maxsize=2048)
 def _make_class(name, spec):
     import_repo()
     from npstructures.npdataclasses import npdataclass
